@@ -260,9 +260,12 @@ def _run_path(reg: Registry, con: Contract, func: Any, defcls: Any, p: Path, it:
     p.entry_bound = copy.deepcopy(bound)  # type: ignore[attr-defined]  # the pre-state (symbolic leaves are shared)
     fr = reg.spec_frame(con, bound)
     fr.result = UNBOUND
-    reg.eval_lets(it, con, fr)
-    for c in con.of("requires"):
-        p.assume(reg.eval_bool(it, c.arg(0), fr))
+    for c in con.clauses:  # pre-state clauses in source order (a let may depend on an earlier requires and vice versa)
+        if c.kind == "let":
+            for kw in c.node.keywords:
+                fr.locals[kw.arg] = it.ev(kw.value, fr)
+        elif c.kind == "requires":
+            p.assume(reg.eval_bool(it, c.arg(0), fr))
     for c in con.of("assume"):
         p.assume(reg.eval_bool(it, c.arg(0), fr))
         p.assumption_ids.add("assume@" + con.target)
